@@ -18,6 +18,7 @@ broadcast use {axiom_string_ext, axiom_str_ext, axiom_str_of, axiom_vec_ext, axi
 //@include spec/tau_spec.rs
 //@include spec/taub_spec.rs
 //@include spec/rule_spec.rs
+//@include spec/ucl_lemmas.rs
 //@include spec/nat_spec.rs
 //@include spec/nathead_spec.rs
 //@include spec/natrule_spec.rs
